@@ -423,6 +423,16 @@ class Trace:
                                            "(sent %r, the entity has %r): %s" % (e_, c, sorted(body.get(e_, {})), sorted(view[e_]), l))
                                     self.add("C08", i, why)
                         if f[0] == "upd":
+                            rem_ = kv_field(l, "rem")
+                            for item_ in ([] if rem_ in (None, "-") else rem_.split(";")):
+                                e_ = int(item_.split(":")[0])
+                                if e_ not in view:
+                                    why = ("the message to client %d carries a removal record for entity %d, which the server does not replicate to it at this tick "
+                                           "(the client re-creates the entity to apply it): %s" % (c, e_, l))
+                                    self.add("C03", i, why)
+                                    if cfg.get("policy", "all") != "all":
+                                        self.add("C08", i, why)
+                        if f[0] == "upd":
                             des = kv_field(l, "des")
                             for e_ in ([] if des in (None, "-") else [int(x) for x in des.split(";")]):
                                 if e_ in view and e_ not in body:
